@@ -7,6 +7,7 @@ from ..facts import AnchorMissing
 from ..guards import analysis, closure_info, closure_ret, subst_upvars, is_field_of
 from ..sym import Sym
 from ..terms import strip, short, cname, unmut, walk
+from .common import check_row_decl
 from .tables import check_fn_tables, diff_tables
 
 LEVEL = "other"
@@ -283,6 +284,9 @@ def run(prog, tier, res):
                 k2, text = "value", "got %s, expected %s" % (json.dumps(g)[:500], json.dumps(w)[:500])
             res.violate(rule, fn, "%s:%s" % (key, k2[:160]), "%s differs from the spec: %s" % (what, text), prog.bodies[fn].where() if fn in prog.bodies else "")
     for key, main in BINS.items():
+        adt_ = main.rsplit("::", 1)[0] + "::Row"
+        if adt_ in spec.get("row_decl", {}):
+            check_row_decl(prog, res, R3, adt_, spec["row_decl"][adt_], main, prog.bodies[main].where() if main in prog.bodies else "")
         g, w = got["bins"][key], spec["bins"][key]
         cmp(R1, main, "sorted-loop", [g["sort_calls"], g["file_loop_over_sorted"]], [1, True], "file loop over sort_run_files(..)?.1")
         cmp(R3, main, "sinks", g["sinks"], w["sinks"], "row pipeline (sink, adapters, source)")
